@@ -113,16 +113,19 @@ impl Write for WritableFile {
         #[cfg(feature = "verif-hooks")]
         crate::verif_hooks::yield_point("flush:write");
         let mut handle = self.fs.write().unwrap();
-        let previous_file = handle.files.get(&self.destination);
+        let previous_file = match handle.files.get(&self.destination) {
+            Some(file) if file.file_type == VfsFileType::File => file,
+            // The file was removed (or replaced by a directory) while this handle was open:
+            // as with an unlinked file, there is nothing left to publish to.
+            _ => return Ok(()),
+        };
 
         let new_file = MemoryFile {
             file_type: VfsFileType::File,
             content: Arc::new(content),
-            created: previous_file
-                .map(|file| file.created)
-                .unwrap_or(SystemTime::now()),
+            created: previous_file.created,
             modified: Some(SystemTime::now()),
-            accessed: previous_file.map(|file| file.accessed).unwrap_or(None),
+            accessed: previous_file.accessed,
         };
 
         handle.files.insert(self.destination.clone(), new_file);
